@@ -27,6 +27,7 @@
 #include "dnsmini.h"
 #include "dnse2e_env.h"
 #include "evdns.c"
+#include "event-internal.h"
 
 /* ------------------------------------------------------------------ configuration tables */
 enum { K_A, K_AAAA, K_PTR, K_GAI, K_GAI4, K_A_VC, K_A_SEARCH, K_A_IGNTC, K_NKINDS };
@@ -88,7 +89,7 @@ static int ns_mode[DNSE_MAXNS];           /* 0 / B_SILENT / B_STICKY_REFUSED */
 static struct { int used, ns; struct sockaddr_in from; uint8_t pkt[600]; int len; } late[8];
 static int nlate;
 static long live0; static uint64_t fd0;
-static int msgs_after_free;
+static long sent_at_free, streams_at_free;
 
 static void user_action(struct ureq *in_cb);
 
@@ -105,7 +106,7 @@ static int req_of_qname(const char *qn)
 {
 	if ((qn[0] == 'r' || qn[0] == 'R') && qn[1] >= '0' && qn[1] <= '9' && (qn[2] == '.' || qn[2] == 0)) return qn[1] - '0';
 	int v = atoi(qn);
-	if (v >= 100 && v < 100 + MAXREQ && strstr(qn, ".in-addr.arpa")) return v - 100;
+	if (v >= 100 && v < 100 + MAXREQ && strcasestr(qn, ".in-addr.arpa")) return v - 100;
 	return -1;
 }
 
@@ -222,6 +223,7 @@ static void start_request(struct ureq *r)
 		struct evutil_addrinfo h; memset(&h, 0, sizeof h);
 		h.ai_family = r->kind == K_GAI ? PF_UNSPEC : PF_INET; h.ai_socktype = SOCK_STREAM;
 		r->handle = evdns_getaddrinfo(dbase, name, "80", &h, gai_cb, r);
+		dnse_watch(r->handle);
 		break; }
 	}
 	if (!r->handle && !r->done) mc_fail("harness:request-not-started", "r%d (%s): NULL handle and no callback", r->idx, kind_name[r->kind]);
@@ -233,9 +235,49 @@ static void start_timer_cb(evutil_socket_t fd, short what, void *arg)
 	start_request(arg);
 }
 
+/* Continuations that evdns has already scheduled in the event_base (deferred
+ * reply_run_callback entries) survive evdns_base_free().  When their user_callback
+ * is evdns-internal — evdns_getaddrinfo_gotresolve (locks and updates data->evdns_base
+ * for every result but DNS_ERR_SHUTDOWN) or nameserver_probe_callback (locks
+ * ns->base of the freed nameserver) — they run against freed memory.  Both are
+ * confirmed defects (see notes/dnse2e.md; -P guards=0 shows the ASan reports); the
+ * condition is detected here, reported under its own key, and the free is not
+ * performed so that the worker survives and the exploration goes on. */
+static void scan_queue(struct evcallback_list *q, int *gai, int *probe)
+{
+	struct event_callback *cb;
+	TAILQ_FOREACH(cb, q, evcb_active_next) {
+		if (cb->evcb_closure != EV_CLOSURE_CB_SELF || cb->evcb_cb_union.evcb_selfcb != reply_run_callback) continue;
+		struct evdns_request *h = EVUTIL_UPCAST(cb, struct evdns_request, deferred);
+		if (h->user_callback == evdns_getaddrinfo_gotresolve && h->err != DNS_ERR_SHUTDOWN) (*gai)++;
+		if (h->user_callback == nameserver_probe_callback && h->err != DNS_ERR_CANCEL) (*probe)++;
+	}
+}
+static void scheduled_internal_callbacks(int *gai, int *probe)
+{
+	*gai = *probe = 0;
+	for (int i = 0; i < evbase->nactivequeues; i++) scan_queue(&evbase->activequeues[i], gai, probe);
+	scan_queue(&evbase->active_later_queue, gai, probe);
+}
+
 static void free_base(int fail)
 {
 	if (!base_alive) return;
+	if (mc_param("guards", 1)) {
+		int gai, probe; char key[112];
+		scheduled_internal_callbacks(&gai, &probe);
+		if (gai) {
+			snprintf(key, sizeof key, "C34/getaddrinfo-callback-scheduled-at-base-free/fail_requests%d", fail);
+			mc_fail(key, "evdns_base_free(base, %d)%s while the callback of a getaddrinfo sub-request is already scheduled: "
+			    "evdns_getaddrinfo_gotresolve will lock/update the freed base", fail, in_user_cb ? " (from inside a user callback)" : "");
+		}
+		if (probe) {
+			snprintf(key, sizeof key, "C34/probe-callback-scheduled-at-base-free/fail_requests%d", fail);
+			mc_fail(key, "evdns_base_free(base, %d)%s while the callback of an answered nameserver probe is already scheduled: "
+			    "nameserver_probe_callback will lock the base of the freed nameserver", fail, in_user_cb ? " (from inside a user callback)" : "");
+		}
+		if (gai || probe) { mc_observe("FREE(%d)-skipped ", fail); return; }
+	}
 	mc_observe("FREE(%d)%s ", fail, in_user_cb ? "@cb" : "");
 	for (int i = 0; i < nreqs; i++) {
 		if (reqs[i].started && !reqs[i].done) reqs[i].out_at_free = 1;
@@ -245,6 +287,7 @@ static void free_base(int fail)
 	base_alive = 0;          /* before the call: callbacks run from inside must not touch the base */
 	evdns_base_free(dbase, fail);
 	dbase = NULL;
+	sent_at_free = dnse_udp_sent_total(); streams_at_free = dnse_stream_sockets;
 	MC_COUNT(fail ? "base_free_fail1" : "base_free_fail0");
 }
 
@@ -357,6 +400,13 @@ static void send_udp(const struct dnse_msg *m, const uint8_t *p, int len)
 }
 
 static void mark(int r, unsigned s) { if (r >= 0 && r < nreqs) reqs[r].seen |= s; }
+/* A reply that arrives when its request is gone (second copy, late reply) may meet
+ * another request that meanwhile owns the same transaction id; evdns then ends that
+ * request with an error (question mismatch) — allowed: "an error" (DESIGN app. A, C33). */
+static void mark_bystanders(int r)
+{
+	for (int i = 0; i < nreqs; i++) if (i != r && reqs[i].started && !reqs[i].done) reqs[i].seen |= S_GARBAGE;
+}
 
 static void answer_udp(struct dnse_msg *m)
 {
@@ -390,7 +440,7 @@ static void answer_udp(struct dnse_msg *m)
 		mc_observe("(garbage%d) ", v);
 		send_udp(m, buf, len); mark(r, S_GARBAGE | S_NOANSWER);
 		break; }
-	case B_DUP: len = build_reply(m, buf, sizeof buf, 0, 0, 1); send_udp(m, buf, len); send_udp(m, buf, len); mark(r, S_OK); break;
+	case B_DUP: len = build_reply(m, buf, sizeof buf, 0, 0, 1); send_udp(m, buf, len); send_udp(m, buf, len); mark(r, S_OK); mark_bystanders(r); break;
 	case B_LATE:
 		len = build_reply(m, buf, sizeof buf, 0, 0, 1);
 		if (nlate < 8) { late[nlate].used = 1; late[nlate].ns = m->ns; late[nlate].from = m->from; memcpy(late[nlate].pkt, buf, len); late[nlate].len = len; nlate++; }
@@ -437,6 +487,42 @@ static void answer_tcp(struct dnse_msg *m)
 	case T_NXDOMAIN: len = build_reply(m, buf + 2, sizeof buf - 2, DM_RC_NXDOMAIN, 0, 0); buf[0] = (uint8_t)(len >> 8); buf[1] = (uint8_t)len;
 		dnse_tcp_write(m->ns, m->tcp, buf, len + 2); mark(r, S_NXDOMAIN); break;
 	}
+}
+
+/* ------------------------------------------------------------------ nothing of evdns may stay in the event_base after the free */
+/* Called after evdns_base_free() and one round of the loop (so that the deferred
+ * DNS_ERR_SHUTDOWN / already scheduled callbacks have run).  Any event that is
+ * still pending and whose callback is an evdns-internal function would later run
+ * against freed memory: that is a callback after the base was freed.  The event is
+ * reported and removed so that the exploration can go on without crashing. */
+static struct event *survivors[16]; static int nsurvivors;
+static const char *evdns_internal_cb_name(event_callback_fn fn)
+{
+	if (fn == evdns_getaddrinfo_timeout_cb) return "evdns_getaddrinfo_timeout_cb";
+	if (fn == evdns_request_timeout_callback) return "evdns_request_timeout_callback";
+	if (fn == nameserver_prod_callback) return "nameserver_prod_callback";
+	if (fn == nameserver_ready_callback) return "nameserver_ready_callback";
+	if (fn == evdns_ttl_expired) return "evdns_ttl_expired";
+	return NULL;
+}
+static int survivor_cb(const struct event_base *b, const struct event *ev, void *arg)
+{
+	(void)b; (void)arg;
+	if (evdns_internal_cb_name(event_get_callback(ev)) && nsurvivors < 16) survivors[nsurvivors++] = (struct event *)ev;
+	return 0;
+}
+static void check_surviving_events(void)
+{
+	nsurvivors = 0;
+	event_base_foreach_event(evbase, survivor_cb, NULL);
+	for (int i = 0; i < nsurvivors; i++) {
+		char key[128];
+		snprintf(key, sizeof key, "C34/event-survives-base-free/%s/fail_requests%d", evdns_internal_cb_name(event_get_callback(survivors[i])), freed_fail);
+		mc_fail(key, "after evdns_base_free(base, %d) an event with callback %s is still pending in the event_base; it would run against freed memory",
+		    freed_fail, evdns_internal_cb_name(event_get_callback(survivors[i])));
+		event_del(survivors[i]);
+	}
+	MC_COUNT("oracle_no_evdns_event_after_free");
 }
 
 /* ------------------------------------------------------------------ driving the loop */
@@ -488,11 +574,11 @@ static void body(void)
 
 	/* ---- fresh world ---- */
 	vclock_reset(); vclock_idle_hook = idle_hook; vclock_block_hook = NULL; vclock_postwait_hook = postwait;
-	dnse_ns_begin(); dnse_rng_reset(rngmode);
-	live0 = mcx_alloc_live(); fd0 = mcx_fd_signature();
+	dnse_ns_begin(); dnse_rng_reset(rngmode); dnse_watch_reset();
+	live0 = dnse_alloc_live(); fd0 = mcx_fd_signature();
 	memset(reqs, 0, sizeof reqs); nreqs = RS->n; nlate = 0; memset(late, 0, sizeof late);
 	memset(ns_mode, 0, sizeof ns_mode);
-	acts_left = mc_param("acts", 1); idle_flag = 0; freed_fail = 0; in_user_cb = 0; msgs_after_free = 0;
+	acts_left = mc_param("acts", 1); idle_flag = 0; freed_fail = 0; in_user_cb = 0;
 	evbase = event_base_new();
 	dbase = evdns_base_new(evbase, 0);
 	if (!evbase || !dbase) { mc_fail("harness:setup", "event_base/evdns_base_new failed"); return; }
@@ -522,7 +608,6 @@ static void body(void)
 		check_req_heads();
 		int n = dnse_ns_collect(msgs, 24);
 		if (n) check_wire_ids(msgs, n);
-		if (!base_alive && n) { msgs_after_free += n; mc_fail("C34/traffic-after-free", "%d message(s) reached a nameserver after evdns_base_free", n); }
 		user_action(NULL);
 		if (n && base_alive) {
 			for (int i = 0; i < n && base_alive; i++) {
@@ -558,6 +643,7 @@ static void body(void)
 				struct dnse_msg m; memset(&m, 0, sizeof m); m.ns = late[i].ns; m.from = late[i].from;
 				late[i].used = 0;
 				mc_observe("ns%d:late-reply ", m.ns);
+				mark_bystanders(-1);
 				send_udp(&m, late[i].pkt, late[i].len);
 			}
 	}
@@ -570,11 +656,14 @@ static void body(void)
 	}
 	for (int i = 0; i < 8; i++) {
 		io_passes();
-		int n = dnse_ns_collect(msgs, 24);
-		if (n) { msgs_after_free += n; mc_fail("C34/traffic-after-free", "%d message(s) reached a nameserver after evdns_base_free", n); }
+		dnse_ns_collect(msgs, 24);        /* queries sent before the free may still sit in the servers' queues */
+		if (i == 0) check_surviving_events();
 		idle_flag = 0;
 		if (event_base_loop(evbase, EVLOOP_ONCE) == 1 || idle_flag) break;
 	}
+	if (dnse_udp_sent_total() != sent_at_free || dnse_stream_sockets != streams_at_free)
+		mc_fail("C34/traffic-after-free", "%ld datagram(s) sent and %ld TCP socket(s) created after evdns_base_free returned",
+		    dnse_udp_sent_total() - sent_at_free, dnse_stream_sockets - streams_at_free);
 	MC_COUNT("oracle_after_free_quiet");
 
 	/* ---- verdicts ---- */
@@ -594,7 +683,7 @@ static void body(void)
 	event_base_free(evbase); evbase = NULL;
 	dnse_ns_end();
 	if (!gai_discarded) {
-		if (mcx_alloc_live() != live0) mc_fail("C34/leak", "%ld allocation(s) still live after evdns_base_free + event_base_free", mcx_alloc_live() - live0);
+		if (dnse_alloc_live() != live0) mc_fail("C34/leak", "%ld allocation(s) still live after evdns_base_free + event_base_free", dnse_alloc_live() - live0);
 		MC_COUNT("oracle_leak");
 	}
 	if (mcx_fd_signature() != fd0) mc_fail("C34/fd-leak", "fd table differs from the baseline");
@@ -603,7 +692,7 @@ static void body(void)
 
 static void init(void)
 {
-	mcx_alloc_install();
+	dnse_alloc_install();
 	event_set_log_callback(logcb);
 	if (dnse_ns_init() < 0) abort();
 }
